@@ -50,7 +50,7 @@ def assembleFrom (ss0 : List Stmt) : Outcome Assembly :=
         | .diverged => .diverged
 
 theorem assemble_eq_from {fs : Files} {lines : List Str} {parsed ss0 : List Stmt}
-    (hp : parseLines lines = .ok parsed) (he : expand fs 64 [] parsed = .ok ss0) :
+    (hp : parseLines lines = .ok parsed) (he : expand fs (includeFuel fs) [] parsed = .ok ss0) :
     assemble fs lines = assembleFrom ss0 := by
   unfold assemble assembleFrom
   rw [hp]; dsimp only; rw [he]
@@ -86,7 +86,7 @@ theorem checkProgram_sound {lines : List Str} {check : Assembly → Bool} (h : c
     obtain ⟨h1, h2⟩ := h
     split at h2
     · rename_i a ha
-      exact ⟨a, by rw [assemble_eq_from hp (expand_noinclude fs 63 [] p h1), ha], h2⟩
+      exact ⟨a, by rw [assemble_eq_from hp (expand_noinclude fs fs.length [] p h1), ha], h2⟩
     · cases h2
   · cases h
 
@@ -106,7 +106,7 @@ theorem diagProgram_sound {lines : List Str} (h : diagProgram lines = true) (fs 
     obtain ⟨h1, h2⟩ := h
     split at h2
     · rename_i ha
-      rw [assemble_eq_from hp (expand_noinclude fs 63 [] p h1), ha]
+      rw [assemble_eq_from hp (expand_noinclude fs fs.length [] p h1), ha]
     · cases h2
   · cases h
 
